@@ -1,7 +1,7 @@
 (* C15 — property theorems only (statements pinned in Pins_C15.v). *)
 From Coq Require Import List Arith Lia Bool.
 Import ListNotations.
-From SV Require Import c15.Conc c15.Model_C15 c15.Proofs_C15 c15.Proofs_C15_Excl c15.Proofs_C15_Spawn c15.Proofs_C15_Visible c15.Proofs_C15_Visible2.
+From SV Require Import c15.Conc c15.Model_C15 c15.Proofs_C15 c15.Proofs_C15_Excl c15.Proofs_C15_Spawn c15.Proofs_C15_Visible c15.Proofs_C15_Visible2 c15.Proofs_C15_Flags.
 
 (* Serialisation (repaired lock discipline): for every number of threads, every script and every schedule,
    at most one thread is inside a stop-the-world section, and it owns the heap mutex. *)
@@ -135,3 +135,12 @@ Example C15_global_visible_nonvacuous :
   (let w := run cfg_fixed vis_sched (init wf_progs) in
    pc (th w 1) = Exec /\ env_gen w = 1 /\ seen (th w 1) = 1 /\ seen (th w 0) = 1).
 Proof. exact global_visible_example. Qed.
+
+(* The pause flags during a section, for EVERY schedule (no window hypothesis): once the stopper's stop_threads pass
+   has gone past a registered, unfinished thread, that thread's flag stays set until the stopper's resume pass clears
+   it (flagged2_ok: below position k during SSetFlag k, everyone from the end of that pass to SResumeLock, from
+   position k on during SResume k). *)
+Theorem C15_flagged_until_resumed : forall progs sched h s,
+  let w := run cfg_fixed sched (init progs) in
+  pc (th w h) = Stw s -> flagged2_ok w h s.
+Proof. exact flagged_during_section_run. Qed.
